@@ -1,4 +1,5 @@
 import Sismic.Proofs.RoundTrip
+import Sismic.Proofs.RoundTripTree
 /-!
 # Property C11 — YAML export/import round-trip is lossless
 
@@ -50,5 +51,60 @@ example : ({ id := 3, source := "a", target := some "b", event := some "e", guar
              action := some (mkCode "x = 2"), priority := 7, pre := [mkCode "x >= 0"] } : Trans).plain := by
   refine ⟨?_, ?_, ?_, ?_, ?_, ?_, ?_⟩ <;> intro a ha <;> simp at ha <;> subst ha <;>
     first | decide | exact ⟨rfl, by decide, by decide⟩ | exact ⟨by decide, by decide⟩
+
+/-! ### the whole document -/
+
+/-- **Importing the exported document registers the original tree.** For a statechart whose exported
+    tree can be read back (`Covered`: every state below the root is there under its own name, code
+    strings are stripped and non-empty), `import_from_dict(export_to_dict(c))` — with any fuel above
+    the number of states of the tree — is `add_state` / `add_transition` applied to exactly the lists
+    `flatS` (the `StateDef`s with their parents) and `flatT` (the transitions, identity reset) in an
+    empty statechart with the name, description and preamble of `c`, followed by `validate()`. -/
+theorem document_roundtrip (c : Chart) (r : Name) (hr : c.root = some r)
+    (hcov : Covered c (c.states.length + 1) r)
+    (hdesc : c.description ≠ some "") (hpre : ∀ p, c.preamble = some p → p = mkCode p.src ∧ p.src ≠ "")
+    (fuel : Nat) (hfuel : sizeS c (c.states.length + 1) r < fuel) :
+    importDict fuel (exportDict c) =
+      buildChart { name := c.name, description := c.description, preamble := c.preamble, children := [(none, [])] }
+        (flatS c (c.states.length + 1) r none) (flatT c (c.states.length + 1) r) :=
+  importDict_export c r hr hcov hdesc hpre fuel hfuel
+
+/-- **Nothing foreign is registered**: every registered state is a `StateDef` of `c` (same name,
+    kind, code, initial / memory, contracts: the very value) under a parent in whose children list it
+    stands, and every registered transition is a transition of `c` but for its identity. -/
+theorem nothing_foreign_registered (c : Chart) (f : Nat) (r : Name) :
+    (∀ x ∈ flatS c f r none, (c.stateFor r = some x.1 ∧ x.2 = none) ∨
+      ∃ m q, c.stateFor m = some x.1 ∧ x.2 = some q ∧ m ∈ c.childrenFor q) ∧
+    (∀ t' ∈ flatT c f r, ∃ t ∈ c.transitions, t' = { t with id := 0 }) :=
+  ⟨fun x hx => flatS_sound c f r none x hx, fun t' ht => flatT_sound c f r t' ht⟩
+
+/-- **Nothing is forgotten**: in a well-formed statechart every state is registered with the parent
+    `c` records for it, and every transition is registered. -/
+theorem nothing_forgotten (c : Chart) (hw : WFChart c) (r : Name) (hr : c.root = some r) (F : Nat)
+    (hcov : Covered c F r) :
+    (∀ m sd, c.stateFor m = some sd → (sd, c.parentFor m) ∈ flatS c F r none) ∧
+    (∀ t ∈ c.transitions, { t with id := 0 } ∈ flatT c F r) :=
+  flat_complete c hw r hr F hcov
+
+/-- non-vacuity: a compound root with a basic child and a transition is `Covered` -/
+example : Covered
+    { states := [{ name := "r", kind := .compound, initial := some "a" }, { name := "a", kind := .basic }],
+      parent := [("r", none), ("a", some "r")], children := [(none, ["r"]), (some "r", ["a"]), (some "a", [])],
+      transitions := [{ id := 0, source := "a", target := some "r", event := some "e" }] } 3 "r" := by
+  refine ⟨{ name := "r", kind := .compound, initial := some "a" }, rfl, rfl, ?_, ?_, ?_⟩
+  · refine ⟨?_, ?_, ?_, ?_, ?_, ?_, ?_⟩ <;> intro a ha <;> simp at ha
+    subst ha; exact ⟨by decide, rfl⟩
+  · intro t ht; simp [Chart.transitionsFrom] at ht
+  · intro _ ch hch
+    simp [Chart.childrenFor] at hch
+    subst hch
+    refine ⟨{ name := "a", kind := .basic }, rfl, rfl, ?_, ?_, ?_⟩
+    · refine ⟨?_, ?_, ?_, ?_, ?_, ?_, ?_⟩ <;> intro a ha <;> simp at ha
+    · intro t ht
+      simp [Chart.transitionsFrom] at ht
+      subst ht
+      refine ⟨?_, ?_, ?_, ?_, ?_, ?_, ?_⟩ <;> intro a ha <;> simp at ha <;> subst ha <;>
+        first | decide | exact ⟨by decide, by decide⟩
+    · intro h; cases h
 
 end Sismic.C11
